@@ -1,6 +1,6 @@
 (* Extraction of the C06 static checkers (ExtrOcamlBasic only). *)
 Require Import ExtrOcamlBasic.
-Require Import NS.theories.F64 NS.theories.Lang NS.theories.WfStatic.
+Require Import NS.theories.F64 NS.theories.Lang NS.theories.WfStatic NS.theories.WfScoped.
 Extraction Language OCaml.
 Extraction "extract/ModelLangC06.ml"
-  F64.of_bits WfStatic.wf_static WfStatic.loopctl_static WfStatic.ftable.
+  F64.of_bits WfStatic.wf_static WfStatic.loopctl_static WfStatic.ftable WfScoped.wf_scoped.
